@@ -117,14 +117,27 @@ static std::string dispatch(int kind, const L& s, const L& offs) {
     nmc::die("bad kind/dim");
 }
 
+// size / buffer accessors: ndarray_t has size() and data(); the legacy dynamic_ndarray exposes the member `data` (a std::vector) and no size()
+template <typename A> static long arr_size(const A& a) { if constexpr (meta::is_same_v<A, na::dynamic_ndarray<long>>) return (long)a.data.size(); else return (long)a.size(); }
+template <typename A> static auto* arr_data(A& a) { if constexpr (meta::is_same_v<meta::remove_cvref_t<A>, na::dynamic_ndarray<long>>) return a.data.data(); else return a.data(); }
 template <typename A> static std::string layout_check(const L& s, bool colmajor) {
-    A a; a.resize(to_sl(s));
+    // the object is first given ANOTHER shape of the same rank (the reversed one): strides / offset functors cached by an earlier resize must not survive (seeded change m01c)
+    A a; { L rev(s.rbegin(), s.rend()); a.resize(to_sl(rev)); } a.resize(to_sl(s));
     long N = nmc::prod(s); size_t d = s.size();
-    if ((long)a.size() != N) return "size() != product(shape)";
+    if (arr_size(a) != N) return "size() != product(shape)";
     // reference strides for the layout
     L st(d, 1);
     if (!colmajor) st = nmc::row_major_strides(s); else for (size_t i = 1; i < d; i++) st[i] = st[i - 1] * s[i - 1];
     std::set<long> seen; std::string err; long k = 0;
+    // addresses first (nothing is written or read yet): a wrong offset must be reported, not allowed to corrupt the heap of the runner
+    nmc::each_index(s, [&](const L& i) {
+        if (!err.empty()) return;
+        auto ii = to_sl(i);
+        long off = &nm::apply_at(a, ii) - arr_data(a);
+        long want = 0; for (size_t x = 0; x < d; x++) want += i[x] * st[x];
+        if (off != want) err = std::string(colmajor ? "column" : "row") + "-major offset of " + nmc::str(i) + " = " + std::to_string(off) + " expected " + std::to_string(want);
+    });
+    if (!err.empty()) return err;
     nmc::each_index(s, [&](const L& i) { if (!err.empty()) return; auto ii = to_sl(i); nm::apply_at(a, ii) = 1000 + k; k++; });
     k = 0;
     nmc::each_index(s, [&](const L& i) {
@@ -132,7 +145,7 @@ template <typename A> static std::string layout_check(const L& s, bool colmajor)
         auto ii = to_sl(i);
         long v = nm::apply_at(a, ii);
         if (v != 1000 + k) err = "read-back at " + nmc::str(i) + " = " + std::to_string(v);
-        long off = &nm::apply_at(a, ii) - a.data();
+        long off = &nm::apply_at(a, ii) - arr_data(a);
         long want = 0; for (size_t x = 0; x < d; x++) want += i[x] * st[x];
         if (off != want) err = std::string(colmajor ? "column" : "row") + "-major offset of " + nmc::str(i) + " = " + std::to_string(off) + " expected " + std::to_string(want);
         if (off < 0 || off >= N) err = "offset outside buffer";
@@ -146,7 +159,7 @@ template <typename A> static std::string layout_check(const L& s, bool colmajor)
         nmc::each_index(s, [&](const L& i) {
             if (!err.empty()) return;
             auto ii = to_sl(i);
-            long off = &nm::apply_at(b, ii) - b.data();
+            long off = &nm::apply_at(b, ii) - arr_data(b);
             long want = 0; for (size_t x = 0; x < d; x++) want += i[x] * st[x];
             if (off != want) err = std::string(how) + ": " + (colmajor ? "column" : "row") + "-major offset of " + nmc::str(i) + " = " + std::to_string(off) + " expected " + std::to_string(want);
             else if (nm::apply_at(b, ii) != 1000 + kk) err = std::string(how) + ": read-back at " + nmc::str(i) + " = " + std::to_string((long)nm::apply_at(b, ii));
@@ -172,6 +185,7 @@ Outcome nmc_execute(const Case& c) {
         using col_t = na::column_major_ndarray_t<nmtools_list<long>, nmtools_list<size_t>>;
         std::string e = layout_check<row_t>(c.a[0], false);
         if (e.empty()) e = layout_check<col_t>(c.a[0], true);
+        if (e.empty()) { std::string l = layout_check<na::dynamic_ndarray<long>>(c.a[0], false); if (!l.empty()) e = "legacy dynamic_ndarray: " + l; }
         if (e.empty()) {   // same logical element in both layouts
             row_t r; col_t q; r.resize(to_sl(c.a[0])); q.resize(to_sl(c.a[0])); long k = 0;
             nmc::each_index(c.a[0], [&](const L& i) { auto ii = to_sl(i); nm::apply_at(r, ii) = k; nm::apply_at(q, ii) = k; k++; });
